@@ -36,7 +36,13 @@ def fam(nh, tiers):
     P("C06.process_lp_fini", "h_lp_fini", "shutdown of an LP: each processed / remote entry released once, locally sent and cancelled-and-requeued ones not", nh, tiers, funcs=["process_lp_fini"]),
     P("C06.fossil_history", "h_fossil", "released prefix: non-locally-sent buffers released once, locally-sent ones not touched, kept part untouched", nh, tiers, canaries=2, funcs=["fossil_lp_collect"]),
     ]
-HARNESSES = fam(NHQ, ("quick",)) + fam(NHT, ("thorough",))
+REMOTE = [
+    H(name="C06.remote_ids", file="harness/c06_remote.c", entry="h_remote_ids", funcs=["gvt_remote_msg_send", "gvt_remote_anti_msg_send", "gvt_remote_msg_receive", "gvt_remote_anti_msg_receive"],
+      kind="proof", timeout=600, mem_gb=8, flags=("--arrays-uf-always",), desc="loop-free, all (rank, thread, colour, sequence) values: remote words are > 3; identifiers of different sender threads differ; the anti-message carries exactly its event's (id, seq); colours are counted on the right side"),
+    H(name="C06.size_classes", file="harness/c06_remote.c", entry="h_size_classes", funcs=["msg_remote_size", "msg_remote_anti_size"], kind="proof", timeout=300,
+      desc="sizeof(ctrl) < anti size < event size for every payload size; receive-side payload size inverts msg_remote_size"),
+]
+HARNESSES = REMOTE + fam(NHQ, ("quick",)) + fam(NHT, ("thorough",))
 EXPLANATION = "Each STEP of the cancellation protocol is decided on the real process.c/fossil.c for every well-formed history of bounded length and every admissible flag word: send_anti_messages (per ghost slot: ANTI added once / re-queued iff PROCESSED; one remote anti-message and one deferred release; PROCESSED removed once / re-queued unless ANTI; nothing released; cut at past_i), process_msg's dispatch on the previous word (cancelled => never dispatched, released once, rollback iff it had been processed; otherwise dispatched once and appended), match_anti_msg, ScheduleNewEvent's tagging, and the release points (process_lp_fini, fossil_lp_collect, msg_queue_fini in C15). The cross-thread exactly-once conclusion over all interleavings is a rely/guarantee argument written in DESIGN.md - an UNCHECKED assumption. Remote early-anti matching and MPI id stamping are not yet covered by a harness."
 ASSUMPTIONS = ['history length <= 4 (quick) / 5 (thorough); flag words restricted to those the protocol can produce (rely/guarantee table in DESIGN.md)', 'queues, MPI, message allocator, model allocator, statistics, termination module: ghost-counting environment stubs', 'composition across threads/ranks not machine-checked']
 LEVEL_TEXT = 'Bounded contract checks of every protocol step on the real process.c (all histories up to the bound, all admissible flag words, ghost counters per message); the composition across threads is a documented, unchecked rely/guarantee argument.'
